@@ -79,6 +79,8 @@ def one(sc, binary, scratch):
     listen = None
     if sc["listener"] == "unix":
         listen = "unix:" + os.path.join(d, "t.sock")
+    if sc.get("prelude") == "fd-exhaustion":
+        kw["nofile"] = tacdrun.NOFILE_FOR_EXHAUSTION
     t = tacdrun.Tacd(binary, listen=listen, stdin_text=stdin_text, **kw)
     res = {"idx": sc["idx"], "started": False, "shakes": []}
     try:
@@ -88,6 +90,10 @@ def one(sc, binary, scratch):
             res["rc"] = rc
             return res
         res["started"] = True
+        if sc.get("prelude"):
+            # what happened on the listener BEFORE this client must not matter (here: accept() itself failed
+            # for a while because the daemon ran out of descriptors)
+            tacdrun.behave(t.listen, sc["prelude"], [])
         for offer in OFFERS:
             res["shakes"].append((offer, tacdrun.handshake(t.listen, offer, timeout=6.0)))
         res["alive"] = t.alive()
@@ -137,7 +143,9 @@ def build_scenarios(ctx, helper, fixed=None):
                       "acct_key": rng.choice(list(keys)), "token": "".join(rng.choice(
                           "ABCDEFGHIJKLMNOPQRSTUVWXYZabcdefghijklmnopqrstuvwxyz0123456789-_") for _ in range(rng.randint(8, 43))),
                       "crt_key": KEYTYPES[len(specs) % (6 if ctx.quick() else 7)], "crt_digest": DIGESTS[len(specs) % 3],
-                      "listener": "unix" if len(specs) % 5 == 4 else "tcp"})
+                      "listener": "unix" if len(specs) % 5 == 4 else "tcp",
+                      # a few daemons first live through a burst that makes accept() fail (no rng draw)
+                      "prelude": "fd-exhaustion" if len(specs) % 9 == 4 else None})
     pops = [{"op": "proof", "key_pem": keys[s["acct_key"]]["pem"], "token": s["token"], "type": "tls-alpn-01"}
             for s in specs]
     impl = vlib.probe(pops)
